@@ -185,7 +185,7 @@ def run(chk):
     if jobs == 1:
         res = [S.connect_case_worker((repo.root, c)) for c in chunks]
     else:
-        with ProcessPoolExecutor(max_workers=jobs) as ex:
+        with ProcessPoolExecutor(max_workers=__import__('sa.rules.common', fromlist=['pool_size']).pool_size(jobs, jobs)) as ex:
             res = list(ex.map(S.connect_case_worker, [(repo.root, c) for c in chunks]))
     rows = [r for rs in res for r in rs]
     errs = [f'table {r["table"]} request {r["seat"]}/{r["team"]}/v{r["version"]}: {e}' for r in rows for e in r['errors']]
@@ -301,7 +301,7 @@ def run(chk):
     if jobs == 1:
         sres = [S.scenario_worker(x) for x in work]
     else:
-        with ProcessPoolExecutor(max_workers=jobs) as ex:
+        with ProcessPoolExecutor(max_workers=__import__('sa.rules.common', fromlist=['pool_size']).pool_size(jobs, jobs)) as ex:
             sres = list(ex.map(S.scenario_worker, work, chunksize=2))
     errs = [e for r in sres for e in r['errors']]
     if errs:
